@@ -102,6 +102,7 @@ SPECS = {
     "C20": {
         "engines": [
             {"name": "c20", "n": {"quick": 1200, "thorough": 12000}},
+            {"name": "hist", "tag": "c20snap", "extra": "prop=C02", "n": {"quick": 200, "thorough": 3000}, "seed_off": 5},
         ],
         "explanation": "Theorems about the ChangeStore model (Cache/ChangeStore.v): transparency and no-refetch for every disciplined call sequence; the model is compared with the real mongo.ChangeStore on random op sequences over tables with holes; the transparency oracle is also evaluated directly on the implementation.",
         "assumptions": [
